@@ -71,4 +71,36 @@ Corollary gain_redescription_invariant m n k (s : 'S_n) (r : 'rV[F]_m) (A : 'M[F
   reref r ((A *m (perm_mx s)^T) *m invmx (perm_mx s *m H *m (perm_mx s)^T) *m (perm_mx s *m S) + (const_mx 1 : 'cV_m) *m c)
   = reref r (A *m invmx H *m S).
 Proof. by move=> uH r1; rewrite (reref_shift_invariant _ _ r1) (gain_perm_invariant s A S uH). Qed.
+
+(* Link with the combinatorics: when every entry of the head / source / sensor matrices is a function of the
+   label-free unknowns (points, (mesh, position) pairs) and two descriptions enumerate the same unknowns in two
+   orders related by a permutation s, the matrices are P H P^T, P S, A P^T - and the gain is the same. *)
+Section LabelFree.
+Variables (U : Type) (n m k : nat).
+Variables (Kh : U -> U -> F) (Ks : U -> 'I_k -> F) (Ka : 'I_m -> U -> F).
+Variable u : 'I_n -> U.           (* the unknown carrying index i in the first description *)
+Variable s : 'S_n.                (* index i of the second description carries the unknown u (s i) *)
+
+Definition headmx (v : 'I_n -> U) : 'M[F]_n := \matrix_(i, j) Kh (v i) (v j).
+Definition srcmx (v : 'I_n -> U) : 'M[F]_(n, k) := \matrix_(i, j) Ks (v i) j.
+Definition sensmx (v : 'I_n -> U) : 'M[F]_(m, n) := \matrix_(i, j) Ka i (v j).
+
+Lemma headmx_relabel : headmx (u \o s) = perm_mx s *m headmx u *m (perm_mx s)^T.
+Proof.
+rewrite tr_perm_mx -col_permE -row_permE; apply/matrixP=> i j.
+by rewrite !mxE.
+Qed.
+
+Lemma srcmx_relabel : srcmx (u \o s) = perm_mx s *m srcmx u.
+Proof. by rewrite -row_permE; apply/matrixP=> i j; rewrite !mxE. Qed.
+
+Lemma sensmx_relabel : sensmx (u \o s) = sensmx u *m (perm_mx s)^T.
+Proof. by rewrite tr_perm_mx -col_permE; apply/matrixP=> i j; rewrite !mxE. Qed.
+
+Theorem gain_enumeration_free : headmx u \in unitmx ->
+  sensmx (u \o s) *m invmx (headmx (u \o s)) *m srcmx (u \o s) = sensmx u *m invmx (headmx u) *m srcmx u.
+Proof.
+by move=> uH; rewrite headmx_relabel srcmx_relabel sensmx_relabel (gain_perm_invariant s _ _ uH).
+Qed.
+End LabelFree.
 End Gain.
